@@ -722,6 +722,160 @@ def callable_doc(doc):
     return all(isinstance(i, Field) and ok_v(i.value) for i in doc.items)
 
 
+# ------------------------------------------------------------------ wave 6 (s_wr): size ladders for the writer families (C14 / C15)
+# Additive block: documents whose ONE size-like dimension is on the boundary ladder, everything else small, plus an
+# oracle on indentation that does not involve the implementation or the model.
+LADDER = [0, 1, 2, 3, 7, 8, 9, 15, 16, 17, 31, 32, 33, 63, 64, 65, 127, 128, 129, 255, 256, 257, 1023, 1024, 1025,
+          4095, 4096, 4097, 65533, 65534, 65535, 65536]
+
+
+def ladder(hi, lo=0, extra=()):
+    return sorted(set([v for v in LADDER if lo <= v <= hi] + [v for v in extra if lo <= v <= hi]))
+
+
+def deep_recursion():
+    """flatten / render / to_calls recurse once or twice per nesting level"""
+    import sys
+    if sys.getrecursionlimit() < 200000:
+        sys.setrecursionlimit(200000)
+
+
+def indent_law(out, ch, factor, base=0):
+    """Independent oracle on the writer's indentation: after every newline the run of indent characters is
+    factor x (number of braces open at that point, one less when the line starts with the closing brace).
+    `[[p]` / `]` do not count (a parameter body is written at the depth of the block).  Only for outputs whose
+    quoted scalars hold no newline / brace (the ladder documents).  Returns None or (line, got, want)."""
+    ind = bytes([ch])
+    depth = base
+    lines = out.split(b"\n")
+    for k, ln in enumerate(lines):
+        if k > 0:
+            body = ln.lstrip(ind) if factor else ln
+            got = len(ln) - len(body)
+            want = factor * (depth - (1 if body[:1] == b"}" else 0))
+            if ind in b" \t" and factor == 0 and body[:1] in (b" ", b"\t"):
+                return (k, 1, 0)
+            if got != want:
+                return (k, got, want)
+        depth += ln.count(b"{") - ln.count(b"}")
+    return None
+
+
+def deep_doc(rng, depth, kinds="mix", leaf=None, siblings=True, headers=True):
+    """A document with a nesting chain of exactly `depth` containers under the root field.  kinds: "o" objects,
+    "a" arrays, "oa" alternating, "blocks" (runs of 64 equal kinds), "mix" random per level.  With siblings every level
+    has entries AFTER its nested child (the writer must still know, once the child is closed, what kind of container
+    it is in -- at any depth); objects sometimes carry a header (`k=LIST{..}`) or a non-`=` operator."""
+    v = leaf if leaf is not None else S("u", b"leaf")
+    for i in range(depth):
+        lvl = depth - i            # 1 = outermost
+        if kinds == "o":
+            k = "o"
+        elif kinds == "a":
+            k = "a"
+        elif kinds == "oa":
+            k = "oa"[lvl % 2]
+        elif kinds == "blocks":
+            k = "oa"[(lvl // 64) % 2]
+        else:
+            k = "o" if rng.random() < 0.5 else "a"
+        cont = isinstance(v, (Obj, Arr))
+        if k == "o":
+            val = v
+            if headers and cont and _nonempty(v) and rng.random() < 0.1:
+                val = Hdr(rng.choice([b"LIST", b"hsv", b"rgb"]), v)
+            op = rng.choice(FIRST_OPS) if rng.random() < 0.2 else ("=" if (not cont or isinstance(val, Hdr) or rng.random() < 0.7) else None)
+            if op is None:
+                op = "="           # `key{`: the first key of a nested object needs its operator for the parser's peek
+            items = [Field(S("u", b"k%d" % lvl), op, val)]
+            if siblings:
+                items.append(Field(S("q" if rng.random() < 0.2 else "u", b"s"), rng.choice(OPS) if rng.random() < 0.2 else "=", S("u", b"t")))
+            v = Obj(items)
+        else:
+            elems = [S("u", b"e")] if (not cont or rng.random() < 0.5) else []
+            elems.append(v)
+            if siblings:
+                elems += [S("u", b"x"), S("q", b"y")] if rng.random() < 0.7 else [S("u", b"x")]
+            v = Arr(elems)
+    return Doc([Field(S("u", b"root"), "=", v), Field(S("u", b"after"), "=", S("u", b"1"))])
+
+
+def wide_doc(kind, n):
+    """n siblings of one kind in one container, everything else minimal"""
+    u = lambda b: S("u", b)
+    if kind == "top":            # n fields of the root object
+        return Doc([Field(u(b"k%d" % i), OPS[i % 8] if i % 5 == 4 else "=", u(b"v%d" % i)) for i in range(n)])
+    if kind == "fields":         # n fields in a nested object
+        return Doc([Field(u(b"o"), "=", Obj([Field(u(b"k%d" % i), (FIRST_OPS[i % 8] if i == 0 else OPS[i % 8]) if i % 3 == 0 else "=", S("q" if i % 7 == 3 else "u", b"v%d" % i)) for i in range(n)]) if n else Arr([])),
+                    Field(u(b"z"), "=", u(b"1"))])
+    if kind == "elems":          # n scalar elements
+        return Doc([Field(u(b"a"), "=", Arr([S("q" if i % 7 == 3 else "u", b"e%d" % i) for i in range(n)])), Field(u(b"z"), "=", u(b"1"))])
+    if kind == "containers":     # n container elements after a scalar (arrays, objects and empty containers in turn)
+        el = [u(b"first")]
+        for i in range(n):
+            el.append([Arr([u(b"%d" % i)]), Obj([Field(u(b"k"), "=", u(b"%d" % i))]), Arr([])][i % 3])
+        return Doc([Field(u(b"a"), "=", Arr(el)), Field(u(b"z"), "=", u(b"1"))])
+    if kind == "empties":        # n empty containers in a row
+        return Doc([Field(u(b"a"), "=", Arr([u(b"first")] + [Arr([]) for _ in range(n)] + [u(b"last")]))])
+    if kind == "kv":             # a list that turns into n key-value entries (scalar values)
+        return Doc([Field(u(b"a"), "=", Arr([u(b"1"), u(b"2")], [Field(u(b"k%d" % i), ARRAY_OPS[i % 8], S("q" if i % 5 == 2 else "u", b"v%d" % i)) for i in range(n)])), Field(u(b"z"), "=", u(b"1"))])
+    if kind == "objfields":      # n objects as fields (`k={a=b}` x n): n opens and closes at depth 1
+        return Doc([Field(u(b"k%d" % i), "=", Obj([Field(u(b"a"), "=", u(b"b"))]) if i % 2 else Arr([u(b"c"), u(b"d")])) for i in range(n)])
+    if kind == "headers":        # n headed fields
+        return Doc([Field(u(b"c%d" % i), "=", Hdr(b"rgb", Arr([u(b"1"), u(b"2"), u(b"3")]))) for i in range(n)])
+    if kind == "params":         # n parameter blocks in one object (write_tape only)
+        return Doc([Field(u(b"o"), "=", Obj([Field(u(b"f"), "=", u(b"1"))] + [Param(b"p%d" % i, i % 2 == 1, [Field(u(b"x%d" % i), "=", u(b"y"))]) for i in range(n)])), Field(u(b"z"), "=", u(b"1"))])
+    raise ValueError(kind)
+
+
+WIDE_KINDS = ["top", "fields", "elems", "containers", "empties", "kv", "objfields", "headers", "params"]
+
+
+def long_scalar(kind, n, escapes=0, fill=b"a"):
+    """raw text of a scalar of exactly n bytes; quoted ones carry `escapes` escape pairs spread over the text"""
+    if kind == "u":
+        return (fill * n)[:n]
+    if 2 * escapes > n:
+        escapes = n // 2
+    body = bytearray((fill * n)[:n - 2 * escapes])
+    if escapes:
+        step = max(1, len(body) // escapes)
+        out = bytearray()
+        pos = 0
+        for j in range(escapes):
+            out += body[pos:pos + step] + (b'\\"' if j % 2 == 0 else b"\\\\")
+            pos += step
+        out += body[pos:]
+        body = out
+    return bytes(body)
+
+
+def scalar_doc(role, s):
+    """a small document with the scalar s in the given role"""
+    u = lambda b: S("u", b)
+    if role == "key":
+        return Doc([Field(s, "=", u(b"v")), Field(u(b"z"), "=", u(b"1"))])
+    if role == "value":
+        return Doc([Field(u(b"k"), "=", s), Field(u(b"z"), "=", u(b"1"))])
+    if role == "opvalue":
+        return Doc([Field(u(b"k"), ">=", s), Field(u(b"z"), "=", u(b"1"))])
+    if role == "elem":
+        return Doc([Field(u(b"a"), "=", Arr([u(b"x"), s, u(b"y")]))])
+    if role == "firstelem":
+        return Doc([Field(u(b"a"), "=", Arr([s]))])
+    if role == "nestedkey":
+        return Doc([Field(u(b"o"), "=", Obj([Field(s, "=", u(b"v")), Field(u(b"w"), "=", s)]))])
+    if role == "kvkey":
+        return Doc([Field(u(b"a"), "=", Arr([u(b"1")], [Field(s, "=", u(b"v"))]))])
+    if role == "kvvalue":
+        return Doc([Field(u(b"a"), "=", Arr([u(b"1")], [Field(u(b"k"), "=", s), Field(u(b"k2"), "<", u(b"w"))]))])
+    if role == "header":
+        return Doc([Field(u(b"c"), "=", Hdr(s.raw, Arr([u(b"1"), u(b"2")])))])
+    if role == "param":
+        return Doc([Field(u(b"o"), "=", Obj([Field(u(b"f"), "=", u(b"1")), Param(s.raw, False, [Field(u(b"x"), "=", u(b"y"))])]))])
+    raise ValueError(role)
+
+
 if __name__ == "__main__":
     import sys
     rng = random.Random(int(sys.argv[1]) if len(sys.argv) > 1 else 1)
